@@ -27,7 +27,7 @@ func TestCheck(t *testing.T) {
 	r.SetRule("case = (base history b, shutdown step k, loop mode): the driver picks, from a PRNG derived from (seed,b), " +
 		"scheduler replies (execute new/same digest, idle, no change, RPC error, invalid timestamp, unknown state, invalid execute request), " +
 		"executor progress (updates, completion with OK/non-OK status, reaction to cancellation incl. >10 late updates), readiness failures, " +
-		"virtual clock advances and timer firings; shutdown (context cancellation) is injected before step k. mirror mode = LaunchWorkerThread's loop " +
+		"virtual clock advances and timer firings; shutdown (context cancellation) is injected before step k wherever the client is parked then (between Runs, in Synchronize, in the timer/update select, while the executor is gated) or, for half of the variants, from inside Run itself (in the CheckReadiness callback or right after the wait timer was created). mirror mode = LaunchWorkerThread's loop " +
 		"with the error back-off sleep replaced by a gate; real mode = builder.LaunchWorkerThread itself under program.RunLocal. " +
 		"non-trivial = the case hit at least one counted situation; distinct = hash of the boundary event history (requests, replies, executor events, run results)")
 	r.Assume("the scheduler forgets a worker one minute after the synchronization time it last announced (assumption stated in build_client.go); " +
@@ -58,6 +58,10 @@ func TestCheck(t *testing.T) {
 	r.Floor("terminated-after-bound-expired", 3)
 	r.Floor("non-ok-completion-reported", 5)
 	r.Floor("real-loop-cases", 3)
+	// Shutdown beginning strictly inside one Run iteration.
+	r.Floor("shutdown-inside-run-at-timer", 5)
+	r.Floor("shutdown-inside-run-at-readiness", 5)
+	r.Floor("request-built-after-shutdown-inside-run", 5)
 
 	bases := r.Pick(500, 4000)
 	perBase := r.Pick(4, 16)
@@ -94,6 +98,7 @@ func TestCheck(t *testing.T) {
 			rng := r.Rand(7, uint64(i))
 			cfg := caseCfg{Base: 1_000_000 + i, Real: true, Steps: 25 + rng.IntN(20)}
 			cfg.ShutdownAt = rng.IntN(cfg.Steps)
+			cfg.ShutdownIn = []string{"", "timer", "readiness"}[rng.IntN(3)]
 			runCase(r, cfg)
 			r.Situation("real-loop-cases")
 		}(i)
@@ -111,7 +116,11 @@ func TestCheck(t *testing.T) {
 			default:
 				k = (steps*v)/perBase + rng.IntN(3)
 			}
-			jobs <- job{caseCfg{Base: b, Variant: v, Steps: steps, ShutdownAt: k}}
+			in := []string{"", "", "timer", "readiness"}[rng.IntN(4)]
+			if v == perBase-1 {
+				in = ""
+			}
+			jobs <- job{caseCfg{Base: b, Variant: v, Steps: steps, ShutdownAt: k, ShutdownIn: in}}
 		}
 	}
 	close(jobs)
